@@ -49,7 +49,8 @@ class C06(DevProp):
             "(min = 0 only) x {unidirectional CC, bidirectional CC, pitch bend}; the up/down sweep plus random jumps exercises (previous, new) pairs of "
             "the duplicate suppression; plus a mapping-switch stream: 2-3 mappings with different deadzone / flip / kind for the same axis, partial "
             "sweeps separated by mapping_up / mapping_down and the up+down chord (reset), each event judged with the configuration of the mapping "
-            "State() reported; non-trivial = distinct configurations with at least 10 transmitted axis events")
+            "State() reported; a shared-code stream: the same ABS code on 2-3 sub-handlers with their own controllers, the handlers reporting equal positions "
+            "one after the other (each handler judged on its own); non-trivial = distinct configurations with at least 10 transmitted axis events")
 
     @staticmethod
     def emit_g(g):
@@ -59,6 +60,11 @@ class C06(DevProp):
     def emit_multi(self, case, res):
         gs = clist(["(%d, %s)" % (i, self.emit_g(g)) for i, g in enumerate(case["gs"])])
         return "(Build_c06mcase %s %d %s)" % (gs, case["cfg"]["mapping"], agen.emit_acase(case, res))
+
+    def emit_handlers(self, case, res):
+        sid = devgen.sub_ids(case["cfg"])
+        gs = clist(["(%d, %s)" % (sid[sub], self.emit_g(g)) for sub, g in case["hs"]])
+        return "(Build_c06hcase %s %s)" % (gs, agen.emit_acase(case, res))
 
     def emit(self, case, res):
         g = case["g"]
@@ -70,18 +76,19 @@ class C06(DevProp):
         import math
         import devrun
         merged = {"FAIL": [], "MIS": [], "NT": []}
-        for multi in (False, True):
-            idx = [i for i, c in enumerate(cases) if ("gs" in c) == multi]
+        for variant in ("single", "mappings", "handlers"):
+            idx = [i for i, c in enumerate(cases) if ("mappings" if "gs" in c else "handlers" if "hs" in c else "single") == variant]
             if not idx:
                 continue
-            pre = "c06m" if multi else "c06"
+            multi = variant != "single"
+            pre = {"single": "c06", "mappings": "c06m", "handlers": "c06h"}[variant]
             evals = [("FAIL", "enum_fail (fun k => %s_failures k) 0 cases" % pre),
                      ("MIS", "enum_some (fun k => %s_mismatch k) 0 cases" % pre),
                      ("NT", "enum_true (fun k => Nat.leb 10 (%s_transmitted k)) 0 cases" % pre)]
             n = max(2, min(12, math.ceil(len(idx) / 8)))
             m = devrun.eval_shards([cases[i] for i in idx], [results[i] for i in idx], evals, imports=self.imports, shard=n,
-                                   emit=self.emit_multi if multi else self.emit, case_type="c06mcase" if multi else "c06case",
-                                   tag=tag + ("m" if multi else ""))
+                                   emit={"single": self.emit, "mappings": self.emit_multi, "handlers": self.emit_handlers}[variant],
+                                   case_type=pre + "case", tag=tag + pre[3:])
             for name in merged:
                 merged[name] += [(idx[it[0]],) + tuple(it[1:]) for it in m[name]]
         for name in merged:
@@ -152,8 +159,37 @@ class C06(DevProp):
         return {"cfg": cfg, "abs": [{"code": agen.ABS_X, "min": mn, "max": mx}], "events": ev, "gs": gs, "g": {"per_mapping": gs},
                 "tag": "mapping-switch[%d,%d]" % (mn, mx)}
 
+    def make_handlers_case(self, rng, mn, mx):
+        """the same ABS code on 2-3 sub-handlers of one device, each with its own controllers / kind / flip / deadzone; events alternate
+        between the handlers and deliberately make handler B report what handler A reported last (rest, end stops, equal positions)"""
+        subs = ["", "Touchpad", "aux"][: rng.choice([2, 3])]
+        analogs, hs, dzl = [], [], []
+        for i, sub in enumerate(subs):
+            kind = rng.choice(["cc_uni", "cc_uni", "cc_bidi", "pb"])
+            flip = rng.random() < 0.3
+            dzc = mn == 0 and rng.random() < 0.3
+            dz = rng.choice([0.0, 0.05, 0.2])
+            analogs.append(agen.analog(agen.ABS_X, "cc" if kind != "pb" else "pitch_bend", sub=sub, cc=20 + 2 * i, ccneg=21 + 2 * i,
+                                       off=rng.choice([0, 3]), offneg=rng.choice([0, 5]), flip=flip, bidi=(kind == "cc_bidi"), dzc=dzc))
+            dzl.append({"sub": sub, "code": agen.ABS_X, "bits": str(bits(dz))})
+            hs.append((sub, {"mn": mn, "mx": mx, "dzc": dzc, "flip": flip, "kind": kind, "dzbits": bits(dz), "cc": 20 + 2 * i, "ccneg": 21 + 2 * i}))
+        cfg = agen.base_cfg(analogs, dz=dzl, defdz=[{"sub": "", "bits": str(bits(0.37))}], channel=rng.choice([1, 16]))
+        mid = 0 if mn < 0 else (mn + mx) // 2
+        special = [mn, mx, mid, 0 if mn <= 0 <= mx else mn, mid + 1, mid - 1]
+        ev = []
+        for _ in range(60):
+            x = rng.choice(special) if rng.random() < 0.6 else rng.randint(mn, mx)
+            y = rng.choice(special) if rng.random() < 0.6 else rng.randint(mn, mx)
+            sa, sb = rng.sample(subs, 2)
+            ev += [a(agen.ABS_X, x, sb), a(agen.ABS_X, y, sa), a(agen.ABS_X, y, sb)]     # B moves away, A goes to y, B follows to the same y
+        return {"cfg": cfg, "abs": [{"code": agen.ABS_X, "min": mn, "max": mx}], "events": [e for e in ev if mn <= e["val"] <= mx],
+                "hs": hs, "g": {"per_handler": [g for _, g in hs]}, "tag": "shared-code-handlers[%d,%d]" % (mn, mx)}
+
     def gen(self, rng, tier):
         cases = [self.k5_corpus()]
+        for i in range(10 if tier == "quick" else 100):
+            mn, mx = (RANGES8 + [(-32768, 32767), (0, 1023)])[i % 5]
+            cases.append(self.make_handlers_case(rng, mn, mx))
         for i in range(16 if tier == "quick" else 150):
             mn, mx = (RANGES8 + [(-32768, 32767), (0, 1023)])[i % 5]
             cases.append(self.make_multi_case(rng, mn, mx))
@@ -212,7 +248,7 @@ class C06(DevProp):
 
     def report_case(self, run_, binary, case, what, steps=None, shrink=True, no_input=False):
         # steps index the axis events; keep the configuration in the replay
-        if not no_input and "gs" not in case:
+        if not no_input and "gs" not in case and "hs" not in case:
             sig = self.k5_signature(binary, case, steps)
             if sig:
                 small = {k: v for k, v in case.items() if k != "tag"}
